@@ -345,11 +345,12 @@ def _dim3_formula(fn, where):
     raise TranslateError("%s: no `dim == 3` branch" % where)
 
 
+_PIE_TOL = {"absolute": "1e-12", "relative": "1e-12 * np.abs(self.coord[connect[elem]]).max()"}
 _PIE_REF = """
 def Get_pointsInElem(self, coordinates_n, elem):
     dim = self.__dim
     connect = self._global_to_local_nodes[self.connect]
-    tol = 1e-12
+    tol = %(tol)s
     if dim == 3:
 %(rows)s
         p0_f = [surface[0] for surface in surfaces]
@@ -405,11 +406,14 @@ def read_pointin_form(repo):
     if fn is None:
         raise TranslateError("_GroupElem.Get_pointsInElem not found")
     got = _dim3_formula(fn, "Get_pointsInElem (dim 3)")
-    for trim in ("last1", "closing"):
-        for orient in ("tables", "centroid"):
-            ref = ast.parse(_PIE_REF % {"rows": _PIE_ROWS[trim], "flip": _PIE_FLIP[orient]}).body[0]
-            if _dim3_formula(ref, "reference") == got:
-                return trim, orient, fn.lineno
+    # the slack `tol` (absolute 1e-12, or 1e-12 relative to the magnitude of the element's coordinates) is
+    # runtime behaviour: the theorems model the tests with tol = 0; both forms are accepted
+    for tolform in ("absolute", "relative"):
+        for trim in ("last1", "closing"):
+            for orient in ("tables", "centroid"):
+                ref = ast.parse(_PIE_REF % {"rows": _PIE_ROWS[trim], "flip": _PIE_FLIP[orient], "tol": _PIE_TOL[tolform]}).body[0]
+                if _dim3_formula(ref, "reference") == got:
+                    return trim, orient, fn.lineno
     raise TranslateError("Get_pointsInElem (dim 3): the half-space test is none of the known forms: %s" % got[:300])
 
 
@@ -603,6 +607,45 @@ def read_affine_branch(repo):
                          % ("" if not cands else " (found: %s)" % ast.unparse(cands[0])[:80]))
 
 
+def read_syscoord_form(repo):
+    """Reads the surface-element branch of _GroupElem._Get_sysCoord_e (statement level, fail-closed):
+        i = Normalize(points2 - points1); j = Normalize(points3 - points1);
+        k = Normalize(np.cross(i, j, axis=1)); j = Normalize(np.cross(k, i, axis=1))
+    with points1/2 = nodes 0/1 of `connect[:, self.faces]` and points3 = node 2 (TRI) / 3 (QUAD), stored as
+    the columns 0, 1, 2 of sysCoord_e.  Returns {"TRI": (0, 1, n), "QUAD": (0, 1, m)}."""
+    path = os.path.join(repo, "EasyFEA/FEM/_group_elem.py")
+    tree = ast.parse(open(path).read())
+    fn = _find_func(tree, ["_GroupElem", "_Get_sysCoord_e"])
+    if fn is None:
+        raise TranslateError("_GroupElem._Get_sysCoord_e not found")
+    stmts = [ast.unparse(n) for n in ast.walk(fn) if isinstance(n, (ast.Assign, ast.AugAssign))]
+    need = ["connect = connect[:, self.faces]", "points1 = coord[connect[:, 0]]", "points2 = coord[connect[:, 1]]",
+            "i = Normalize(points2 - points1)", "j = Normalize(points3 - points1)", "k = Normalize(np.cross(i, j, axis=1))",
+            "j = Normalize(np.cross(k, i, axis=1))", "sysCoord_e[:, :, 0] = i", "sysCoord_e[:, :, 1] = j", "sysCoord_e[:, :, 2] = k"]
+    for t in need:
+        if t not in stmts:
+            raise TranslateError("_Get_sysCoord_e: statement `%s` not found" % t)
+    # order of the four frame statements
+    pos = [stmts.index(t) for t in need[3:7]]
+    if stmts.count("j = Normalize(points3 - points1)") != 1 or sorted(pos[1:]) != pos[1:]:
+        raise TranslateError("_Get_sysCoord_e: the frame statements are not in the expected order")
+    res = {}
+    import re
+    for n in ast.walk(fn):
+        if isinstance(n, ast.If):
+            t = ast.unparse(n.test)
+            for famname in ("TRI", "QUAD"):
+                if t == "'%s' in self.elemType" % famname:
+                    b = [ast.unparse(x) for x in n.body]
+                    m = re.match(r"^points3 = coord\[connect\[:, (\d+)\]\]$", b[0]) if len(b) == 1 else None
+                    if not m:
+                        raise TranslateError("_Get_sysCoord_e: third frame node of %s: %s" % (famname, b))
+                    res[famname] = (0, 1, int(m.group(1)))
+    if set(res) != {"TRI", "QUAD"}:
+        raise TranslateError("_Get_sysCoord_e: TRI / QUAD branches not found")
+    return res
+
+
 # --------------------------------------------------------------------------------------
 def _nl(l):
     return "[" + "; ".join(str(i) for i in l) + "]"
@@ -612,7 +655,7 @@ def _nll(ll):
     return "[" + "; ".join(_nl(l) for l in ll) + "]"
 
 
-def emit_coq(faces, eval_form, pointin=("last1", "tables")):
+def emit_coq(faces, eval_form, pointin=("last1", "tables"), frame=None):
     from . import pyexpr
     L = ["(* GENERATED from EasyFEA/FEM/Elems/*.py (index tables) and _GroupElem._Get_Mapping.Eval by translator/faces.py — do not edit *)",
          "From Coq Require Import QArith List String.",
@@ -634,4 +677,8 @@ def emit_coq(faces, eval_form, pointin=("last1", "tables")):
     L.append("(* treatment of padded rows / normal orientation in Get_pointsInElem (dim 3) as found *)")
     L.append("Definition pie_trim : trim_kind := %s." % {"last1": "TrimLast1", "closing": "TrimClosing"}[pointin[0]])
     L.append("Definition pie_orient : orient_kind := %s." % {"tables": "OrientTables", "centroid": "OrientCentroid"}[pointin[1]])
+    frame = frame or {"TRI": (0, 1, 2), "QUAD": (0, 1, 3)}
+    L.append("(* nodes the element frame of _Get_sysCoord_e is built from (surface elements) *)")
+    L.append("Definition frame_tri : nat * nat * nat := (%d, %d, %d)." % tuple(frame["TRI"]))
+    L.append("Definition frame_quad : nat * nat * nat := (%d, %d, %d)." % tuple(frame["QUAD"]))
     return "\n".join(L) + "\n"
